@@ -130,7 +130,8 @@ type wrun struct {
 	fatal    string
 	// features of the scenario (class label)
 	torn, kfWindow, quitQueue, enqAfterTorn, quitInFlush, quitSem bool
-	preCancelled, cancelInWrite                                   bool
+	preCancelled, cancelInWrite, armFailed                        bool
+	armSeen                                                       int
 	tickSinceTorn                                                 bool
 }
 
@@ -223,6 +224,19 @@ func (ru *wrun) exec(tok string) bool {
 		}
 		ru.trace = append(ru.trace, "t")
 		ru.tickSinceTorn = true
+	case tok == "D":
+		// the next SetWriteDeadline fails: the direct writer returns (0, err) from inside the critical section, the
+		// coalescer's flush hands (0, err) to every buffer of the batch - no Write enters the transport
+		ru.g.mu.Lock()
+		pending := ru.g.failArm > 0
+		if !pending {
+			ru.g.failArm = 1
+		}
+		ru.g.mu.Unlock()
+		if pending || !ru.conf.wt {
+			return false
+		}
+		ru.trace = append(ru.trace, "D")
 	case tok == "Q":
 		if ru.qseen {
 			return false
@@ -340,6 +354,45 @@ func (ru *wrun) settle() {
 			ru.kfWindow = true
 		}
 	}
+	report := func(r *wcaller) {
+		r.reported = true
+		cls := "err"
+		switch {
+		case r.err == nil:
+			cls = "ok"
+		case strings.HasPrefix(r.err.Error(), "crash:"):
+			cls = "crash"
+		case errors.Is(r.err, context.Canceled):
+			cls = "cancel"
+		case r.err == io.EOF || r.err == gocql.ErrConnectionClosed:
+			cls = "quit"
+		}
+		ru.events = append(ru.events, fmt.Sprintf("+r%d:%d:%s", r.id, r.n, cls))
+		ru.trace = append(ru.trace, fmt.Sprintf("r%d:%d:%s", r.id, r.n, cls))
+	}
+	// 0. SetWriteDeadline failures, and the callers that got that error: they held the semaphore / were the flusher's
+	// batch BEFORE whatever entered the transport afterwards
+	ru.g.mu.Lock()
+	af := ru.g.armFails
+	ru.g.mu.Unlock()
+	for ; ru.armSeen < af; ru.armSeen++ {
+		ru.armFailed = true
+		ru.events = append(ru.events, "+d")
+		ru.trace = append(ru.trace, "d")
+	}
+	for _, r := range ru.order {
+		if r.reported {
+			continue
+		}
+		select {
+		case <-r.done:
+			if errors.Is(r.err, errArm) {
+				r.state = "D"
+				report(r)
+			}
+		default:
+		}
+	}
 	// 1. Writes that entered the transport (held), and Writes the closed socket refused at once
 	held := ru.g.heldSnapshot()
 	sort.Slice(held, func(i, j int) bool { return held[i].idx < held[j].idx })
@@ -399,20 +452,7 @@ func (ru *wrun) settle() {
 		if r.state != "D" || r.reported {
 			continue
 		}
-		r.reported = true
-		cls := "err"
-		switch {
-		case r.err == nil:
-			cls = "ok"
-		case strings.HasPrefix(r.err.Error(), "crash:"):
-			cls = "crash"
-		case errors.Is(r.err, context.Canceled):
-			cls = "cancel"
-		case r.err == io.EOF || r.err == gocql.ErrConnectionClosed:
-			cls = "quit"
-		}
-		ru.events = append(ru.events, fmt.Sprintf("+r%d:%d:%s", r.id, r.n, cls))
-		ru.trace = append(ru.trace, fmt.Sprintf("r%d:%d:%s", r.id, r.n, cls))
+		report(r)
 	}
 }
 
@@ -477,7 +517,7 @@ func (ru *wrun) class() string {
 		s  string
 	}{{ru.torn, "torn"}, {ru.kfWindow, "KF-C07-1-window"}, {ru.quitQueue, "quit-with-queue"}, {ru.enqAfterTorn, "queued-between-torn-and-quit"},
 		{ru.quitInFlush, "quit-inside-write"}, {ru.quitSem, "quit-with-semaphore-waiters"},
-		{ru.preCancelled, "ctx-ended-before-select"}, {ru.cancelInWrite, "cancel-inside-write"}} {
+		{ru.preCancelled, "ctx-ended-before-select"}, {ru.cancelInWrite, "cancel-inside-write"}, {ru.armFailed, "deadline-arming-failed"}} {
 		if f.on {
 			cls += "/" + f.s
 		}
@@ -661,6 +701,38 @@ func wTemplate(conf wconf, kind, cut, mid int, ek string) wcase {
 		ru.serve()
 		ru.flushIfQueued(step)
 		ru.serve()
+	case 5:
+		// SetWriteDeadline fails (write timeout > 0 only) for the Write of caller `mid`+1 / for the flush that holds the
+		// callers 1..`mid`+1: nothing enters the transport, each of them gets (0, err); the remaining callers follow and
+		// are served whole (cut > 0: the first of them is held after `cut` bytes while the others arrive)
+		if !conf.wt {
+			break
+		}
+		if conf.coal {
+			for i := 1; i <= mid+1; i++ {
+				step(fmt.Sprintf("s%d", i))
+			}
+			step("D")
+			step("t")
+		} else {
+			for i := 1; i <= mid; i++ {
+				step(fmt.Sprintf("s%d", i))
+				ru.serve()
+			}
+			step("D")
+			step(fmt.Sprintf("s%d", mid+1))
+		}
+		for i := mid + 2; i <= 3; i++ {
+			step(fmt.Sprintf("s%d", i))
+			ru.flushIfQueued(step)
+			if w := ru.heldOf(i); w != nil && i == mid+2 && cut > 0 && cut < len(w.p) {
+				step(fmt.Sprintf("p%d:%d", i, cut))
+			}
+		}
+		ru.flushIfQueued(step)
+		ru.serve()
+		ru.flushIfQueued(step)
+		ru.serve()
 	case 4:
 		// caller 1's Write is inside the transport after `cut` bytes; callers 2.. arrive: `mid` of them with their context
 		// already ended (only ctx.Done is ready: they leave at once), the others normally; then EVERY context is cancelled -
@@ -727,6 +799,9 @@ func runWSched(r *vh.Rng, conf wconf) wcase {
 			wt  int
 		}
 		var cs []cand
+		ru.g.mu.Lock()
+		armPending := ru.g.failArm > 0
+		ru.g.mu.Unlock()
 		held := ru.g.heldSnapshot()
 		sort.Slice(held, func(i, j int) bool { return held[i].idx < held[j].idx })
 		for _, w := range held {
@@ -767,6 +842,9 @@ func runWSched(r *vh.Rng, conf wconf) wcase {
 			if q.state == "S" || q.state == "E" || q.state == "R" || q.state == "G" {
 				cs = append(cs, cand{fmt.Sprintf("c%d", q.id), 1})
 			}
+		}
+		if ru.conf.wt && !ru.xseen && !armPending {
+			cs = append(cs, cand{"D", 1})
 		}
 		if !ru.qseen && stepNo >= quitAt {
 			cs = append(cs, cand{"Q", 3})
